@@ -3,6 +3,7 @@ C07 — configuration of one class never changes the behaviour of another.
 Theorems about the cache state machine `DW.Caches` (dump side).
 -/
 import DW.Model.Caches
+import DW.Lemmas.KeyCache
 
 namespace DW.Props.C07
 open DW DW.Caches
@@ -125,5 +126,15 @@ theorem C07_shared_nested_witness :
     (step ds (run ds St.init [.define 0, .define 1, .dump 1]).1 (.dump 0)).2 = [(0, .snake, false)] ∧
     specDump ds 0 = [(0, .camel, false)] := by
   constructor <;> rfl
+
+/-! ### the load side -/
+
+/-- **C07 (load side).** The key caches are per class: for any number of classes with any Meta and field loaders and **any
+interleaved history** of loads over them, every call returns what the same call returns in a fresh process — no call on
+one class changes what another class (or the class itself, later) loads. -/
+theorem C07_load_isolation (specs : Nat → KeyCache.ClsSpec) (calls : List (Nat × List (S × JVal))) :
+    (KeyCache.runWorld false specs (fun _ => []) calls).1 =
+      calls.map (fun c => loadClassWith (specs c.1).fieldLoader (specs c.1).eff (specs c.1).ci (.dict c.2)) :=
+  KeyCache.world_eq specs calls (fun _ => []) (fun n => KeyCache.Inv_nil _ _)
 
 end DW.Props.C07
